@@ -86,6 +86,32 @@ def ob_call(report):
             q.events.append(Event('lookup-miss', 'DashMap::get', (m, key)))
             k(q, MD.NONE)
 
+        def _entry_base(ex, p, v):
+            v = ex.deref(p, v) if isinstance(v, Ptr) else v
+            return re.sub(r'@(Occupied|Vacant)\.0$', '', vname(v))
+
+        def m_occ_get(ex, p, call, k):
+            # explicit `match map.entry(k) { Occupied(o) => o.get() .. }`: the slot of the map
+            name = _entry_base(ex, p, call.args[0])
+            if not name.startswith('entry['):
+                return NotImplemented
+            p.events.append(Event('lookup-hit', 'OccupiedEntry::get', (Sym(name, 'Entry'),)))
+            cell = ('H', f'slot({name})', 'Arc<Semaphore>')
+            p.mem[cell] = Sym(f'sem({name})', 'Arc<Semaphore>')
+            if call.short.endswith('into_ref'):
+                return k(p, Sym(f'slotref({name})', 'RefMut').with_ov('cell', Ptr(cell)))
+            k(p, Ptr(cell, (), 'mut' in call.short.rsplit('::', 1)[-1]))
+
+        def m_vac_insert(ex, p, call, k):
+            name = _entry_base(ex, p, call.args[0])
+            if not name.startswith('entry['):
+                return NotImplemented
+            made = tuple(e.args[0] for e in p.events if e.kind == 'sem-new')
+            p.events.append(Event('or-insert', 'VacantEntry::insert', (Sym(name, 'Entry'), made, 1)))
+            cell = ('H', f'slot({name})', 'Arc<Semaphore>')
+            p.mem[cell] = Sym(f'sem({name})', 'Arc<Semaphore>')
+            k(p, Sym(f'slotref({name})', 'RefMut').with_ov('cell', Ptr(cell)))
+
         def m_value(ex, p, call, k):
             s = ex.deref(p, call.args[0])
             c = s.get_ov('cell') if isinstance(s, Sym) else None
@@ -119,6 +145,7 @@ def ob_call(report):
             p.events.append(Event('inner-call', 'Service::call', (ex.deref(p, call.args[0]), call.args[1])))
             k(p, Sym('inner_future', 'F'))
         models = [(r'Request::peer_id$', m_peer_id), (r'DashMap::entry$', m_entry), (r'Entry::or_insert_with$', m_or_insert_with), (r'Entry::or_insert$', m_or_insert), (r'DashMap::get$', m_get),
+                  (r'OccupiedEntry::(get|get_mut|into_ref)$', m_occ_get), (r'VacantEntry::insert$', m_vac_insert),
                   (r'Ref(Mut)?::value$|<(\w+::)*Ref(Mut)? as Deref(Mut)?>::deref(_mut)?$', m_value),
                   (r'Semaphore::new$', m_sem_new), (r'Semaphore::acquire(_owned)?$', m_acquire), (r'Semaphore::try_acquire(_owned)?$', m_try_acquire),
                   (r'<Arc as Deref>::deref$', m_arc_deref), (r'<S as Service>::call$', m_inner_call)]
@@ -126,7 +153,14 @@ def ob_call(report):
         fn = find_method(ex.prog, 'InflightLimit', 'call', trait='Service')
         clo = find_closure(ex.prog, fn, [0])
         i_map = upvar_index(ex, clo, r'DashMap')
-        i_max = upvar_index(ex, clo, r'^usize$')
+        try:
+            i_max = upvar_index(ex, clo, r'^usize$')
+        except NotFound:
+            # the limit in a private newtype: the one upvar that is none of the others
+            rest = [i for i, t in ex.upvar_types(clo).items() if not re.search(r'DashMap|WaitMode|Request<|^S$|Semaphore', t)]
+            if len(rest) != 1:
+                raise
+            i_max = rest[0]
         i_mode = upvar_index(ex, clo, r'WaitMode')
         i_req = upvar_index(ex, clo, r'Request<')
         try:
@@ -169,7 +203,7 @@ def ob_call(report):
             if hits and not oi:
                 semname = f'sem({vname(hits[0].args[0])})'        # the peer's semaphore was found by a plain lookup: nothing to create
             else:
-                if len(oi) != 1 or len(oi[0].args[1]) != 1 or vname(oi[0].args[1][0]) != f'gen.{i_max}':
+                if len(oi) != 1 or len(oi[0].args[1]) != 1 or not re.fullmatch(re.escape(f'gen.{i_max}') + r'(\.0)*', vname(oi[0].args[1][0])):
                     return viol(ob, [ex], f'a new peer\'s semaphore is not created with max_inflight permits: {[vrepr(x) for x in (oi[0].args[1] if oi else [])]}', 'call-capacity', path_summary(r), len(res))
                 semname = f'sem({vname(oi[0].args[0])})'
             acq = [i for i, e in enumerate(evs) if e.kind in ('acquire', 'try-acquire')]
